@@ -1,0 +1,43 @@
+//go:build verif
+
+package cursor
+
+import "time"
+
+// VerifDropIdle (verification harness, C03): makes every idle held cursor expire now and runs the
+// provider's own time sweep until none is left — what the sweeper does to a cursor after 60 idle seconds.
+// Returns the number of cursors still held (busy ones).
+func VerifDropIdle(pr Provider) int {
+	p, ok := pr.(*provider)
+	if !ok {
+		return -1
+	}
+	p.lock.Lock()
+	defer p.lock.Unlock()
+	for round := 0; round < 64; round++ {
+		idle := 0
+		for _, e := range p.curs {
+			ch := e.Val.(*curHldr)
+			if !ch.busy {
+				ch.expTime = time.Time{}
+				idle++
+			}
+		}
+		if idle == 0 {
+			break
+		}
+		p.sweepByTime()
+	}
+	return len(p.curs)
+}
+
+// VerifHeld (verification harness, C03): number of cursors the provider holds.
+func VerifHeld(pr Provider) int {
+	p, ok := pr.(*provider)
+	if !ok {
+		return -1
+	}
+	p.lock.Lock()
+	defer p.lock.Unlock()
+	return len(p.curs)
+}
